@@ -470,6 +470,10 @@ theorem tie_GuardAwaiter_await_resume :
     Extracted.Kernels.GuardAwaiter_await_resume = Skeletons.GuardAwaiter_await_resume := rfl
 theorem tie_Guard_dtor : Extracted.Kernels.Guard_dtor = Skeletons.Guard_dtor := rfl
 theorem tie_Guard_UnlockHere : Extracted.Kernels.Guard_UnlockHere = Skeletons.Guard_UnlockHere := rfl
+theorem tie_Guard_Lock : Extracted.Kernels.Guard_Lock = Skeletons.Guard_Lock := rfl
+theorem tie_Guard_TryLock : Extracted.Kernels.Guard_TryLock = Skeletons.Guard_TryLock := rfl
+theorem tie_Guard_Unlock : Extracted.Kernels.Guard_Unlock = Skeletons.Guard_Unlock := rfl
+theorem tie_Guard_UnlockOn : Extracted.Kernels.Guard_UnlockOn = Skeletons.Guard_UnlockOn := rfl
 theorem tie_Guard_TryLockImpl : Extracted.Kernels.Guard_TryLockImpl = Skeletons.Guard_TryLockImpl := rfl
 
 end Yaclib.Props.C15.Tie
